@@ -302,6 +302,11 @@ func isLengthField(e *core.Expr) bool {
 	for e.Op == "conv" {
 		e = e.Args[0]
 	}
+	// binary.BigEndian.Uint16(x[3:5])
+	if e.Op == "call" && strings.HasSuffix(e.Name, "bigEndian).Uint16") && len(e.Args) >= 1 {
+		a := e.Args[len(e.Args)-1]
+		return a.Op == "slice" && len(a.Args) >= 3 && a.Args[1].Name == "3" && a.Args[2].Name == "5"
+	}
 	if e.Op != "bin" || e.Name != "|" {
 		return false
 	}
